@@ -128,7 +128,9 @@ fn base_case() -> Case {
 const TS_MIN: i64 = crate::c07::TS_MIN; const TS_MAX: i64 = crate::c07::TS_MAX;
 fn mutations() -> Vec<(&'static str, Vec<fn(&mut Case)>)> {
   vec![
-    ("nonce", vec![|c| { c.nonce = Some(1); c.o_nonce = Some(1); }, |c| { c.nonce = Some(1); c.o_nonce = Some(2); }, |c| c.nonce = Some(1), |c| c.o_nonce = Some(1)]),
+    ("nonce", vec![|c| { c.nonce = Some(1); c.o_nonce = Some(1); }, |c| { c.nonce = Some(1); c.o_nonce = Some(2); }, |c| c.nonce = Some(1), |c| c.o_nonce = Some(1),
+      // "n1" is a proper prefix of "n10" and of "n12": a nonce must be compared as a whole
+      |c| { c.nonce = Some(1); c.o_nonce = Some(10); }, |c| { c.nonce = Some(12); c.o_nonce = Some(1); }]),
     ("kid", vec![|c| { c.kid = Some((0, Some(1), Some(11))); c.sigkey = 17; }, |c| { c.kid = Some((0, Some(1), Some(12))); c.sigkey = 18; }, |c| { c.kid = Some((0, None, Some(12))); c.sigkey = 18; }, |c| c.kid = None, |c| c.kid = Some((0, None, Some(0))), |c| c.kid = Some((1, None, Some(0))), |c| c.kid = Some((2, None, Some(0))), |c| c.kid = Some((1, Some(1), Some(0))), |c| c.kid = Some((0, Some(1), None)), |c| c.kid = Some((0, None, None)), |c| c.kid = Some((1, None, None)),
       |c| c.kid = Some((0, Some(2), Some(0))), |c| c.kid = Some((0, Some(1), Some(5))), |c| { c.kid = Some((0, Some(1), Some(1))); c.sigkey = 11; }, |c| c.kid = Some((0, Some(1), Some(2))), |c| { c.kid = Some((0, None, Some(3))); c.sigkey = 13; },
       |c| { c.kid = Some((0, None, Some(4))); c.sigkey = 14; }, |c| { c.kid = Some((0, Some(2), Some(4))); c.sigkey = 14; }, |c| { c.kid = Some((0, Some(1), Some(4))); c.sigkey = 14; }, |c| c.kid = Some((0, Some(1), Some(6))), |c| { c.kid = Some((0, Some(2), Some(1))); c.sigkey = 21; }, |c| { c.kid = Some((0, None, Some(1))); c.sigkey = 21; }, |c| { c.kid = Some((0, None, Some(1))); c.sigkey = 11; }]),
